@@ -26,10 +26,16 @@ class BlockMatrix(Exception):
     pass
 
 
+class ScalarMatrix(Exception):
+    pass
+
+
 def _matrix_axes(A):
     if A.ndim < 2:
         raise S.ShapeError("matrix contract applied to an array with fewer than 2 axes")
     row, col = A.axes[-2], A.axes[-1]
+    if isinstance(row, S.Axis) and isinstance(col, S.Axis) and row.unit and col.unit:
+        raise ScalarMatrix()
     if isinstance(row, S.DSum) or isinstance(col, S.DSum):
         raise BlockMatrix()
     if row.sorts() != col.sorts():
@@ -124,6 +130,10 @@ def intern_matrix(w, A, want_inverse):
     ctx = w.ctx
     try:
         row, col = _matrix_axes(A)
+    except ScalarMatrix:
+        # 1x1 matrices: inverse = reciprocal, ln det = ln of the entry (positive by precondition)
+        inv = S.SymArr(A.axes, {(): K.powr(A.expr, -1)}).fresh_copy() if want_inverse else None
+        return inv, S.SymArr(A.axes[:-2], {(): K.fn("log", A.expr)}).fresh_copy()
     except BlockMatrix:
         if want_inverse:
             raise S.ShimUnsupported("inverse of a block matrix")
